@@ -377,7 +377,8 @@ fn ser_named_type(ty: &OwnedDataModelType, value: &Value, out: &mut Vec<u8>) -> 
                 return Err(Error::SchemaMismatch);
             }
         }
-        OwnedDataModelType::Schema => todo!(),
+        // schemas-within-schemas have no serde_json::Value form yet
+        OwnedDataModelType::Schema => return Err(Error::ShouldSupportButDont),
     }
     Ok(())
 }
